@@ -1,6 +1,6 @@
 (* Strict UTF-8: decoding an encoding gives the text back; NUL padding is stripped exactly (used by C20_ffdc). *)
 From Coq Require Import List NArith ZArith Bool Arith Lia ZifyBool ZifyNat.
-From PV Require Import Base.Bytes Base.Lit Base.Json Base.Utf8.
+From PV Require Import Base.Bytes Base.Lit Base.Json Base.Utf8 Proofs.BytesFacts.
 Import ListNotations.
 Ltac Zify.zify_post_hook ::= Z.to_euclidean_division_equations.
 Open Scope N_scope.
@@ -115,6 +115,6 @@ Qed.
 
 Theorem rstrip_nul_padding b k : ends_nul b = false -> rstrip_nul (b ++ repeat 0 k) = b.
 Proof.
-  intros H. unfold rstrip_nul, rstrip_by. rewrite rev_app_distr, rev_repeat, lstrip_repeat_nul.
+  intros H. unfold rstrip_nul. rewrite rstrip_by_rev. rewrite rev_app_distr, rev_repeat, lstrip_repeat_nul.
   rewrite lstrip_rev_no_nul by assumption. apply rev_involutive.
 Qed.
